@@ -116,22 +116,30 @@ func (c *hbConn) Write(b []byte) (n int, err error) {
 }
 
 func (c *hbConn) Read(b []byte) (int, error) {
+	var readBytes errBytes
 	select {
+	case readBytes = <-c.recvCh:
 	case <-c.closed:
-		return 0, net.ErrClosed
-	case readBytes := <-c.recvCh:
-		if readBytes.err != nil {
-			return 0, readBytes.err
+		// Messages queued before the close were received before the error
+		// that closed the conn: deliver them first.
+		select {
+		case readBytes = <-c.recvCh:
+		default:
+			return 0, net.ErrClosed
 		}
-
-		if len(b) < len(readBytes.b) {
-			return 0, ErrInsufficientBuffer
-		}
-
-		n := copy(b, readBytes.b)
-
-		return n, nil
 	}
+
+	if readBytes.err != nil {
+		return 0, readBytes.err
+	}
+
+	if len(b) < len(readBytes.b) {
+		return 0, ErrInsufficientBuffer
+	}
+
+	n := copy(b, readBytes.b)
+
+	return n, nil
 }
 
 func (c *hbConn) BufferedAmount() uint64 {
